@@ -40,145 +40,174 @@ const devName = "dev"
 type stackRow struct {
 	Pkg  string
 	Ctor string // constructor of the server implementation in Pkg
-	New  func() any
+	// New builds the stack and returns the outer client plus the model/device behind the server (for model-level writes
+	// on servers without an Update RPC)
+	New func() (client any, model any)
 }
 
 func (r stackRow) key() string { return r.Pkg + "." + r.Ctor }
 
 var stackTable = []stackRow{
-	{"accesspb", "NewModelServer", func() any {
+	{"accesspb", "NewModelServer", func() (any, any) {
+		m := accesspb.NewModel()
 		r := accesspb.NewApiRouter()
-		r.Add(devName, accesspb.WrapApi(accesspb.NewModelServer(accesspb.NewModel())))
-		return accesspb.WrapApi(r)
+		r.Add(devName, accesspb.WrapApi(accesspb.NewModelServer(m)))
+		return accesspb.WrapApi(r), m
 	}},
-	{"airqualitysensorpb", "NewModelServer", func() any {
+	{"airqualitysensorpb", "NewModelServer", func() (any, any) {
+		m := airqualitysensorpb.NewModel()
 		r := airqualitysensorpb.NewApiRouter()
-		r.Add(devName, airqualitysensorpb.WrapApi(airqualitysensorpb.NewModelServer(airqualitysensorpb.NewModel())))
-		return airqualitysensorpb.WrapApi(r)
+		r.Add(devName, airqualitysensorpb.WrapApi(airqualitysensorpb.NewModelServer(m)))
+		return airqualitysensorpb.WrapApi(r), m
 	}},
-	{"airtemperaturepb", "NewModelServer", func() any {
+	{"airtemperaturepb", "NewModelServer", func() (any, any) {
+		m := airtemperaturepb.NewModel()
 		r := airtemperaturepb.NewApiRouter()
-		r.Add(devName, airtemperaturepb.WrapApi(airtemperaturepb.NewModelServer(airtemperaturepb.NewModel())))
-		return airtemperaturepb.WrapApi(r)
+		r.Add(devName, airtemperaturepb.WrapApi(airtemperaturepb.NewModelServer(m)))
+		return airtemperaturepb.WrapApi(r), m
 	}},
-	{"airtemperaturepb", "NewMemoryDevice", func() any {
+	{"airtemperaturepb", "NewMemoryDevice", func() (any, any) {
+		m := airtemperaturepb.NewMemoryDevice()
 		r := airtemperaturepb.NewApiRouter()
-		r.Add(devName, airtemperaturepb.WrapApi(airtemperaturepb.NewMemoryDevice()))
-		return airtemperaturepb.WrapApi(r)
+		r.Add(devName, airtemperaturepb.WrapApi(m))
+		return airtemperaturepb.WrapApi(r), m
 	}},
-	{"bookingpb", "NewModelServer", func() any {
+	{"bookingpb", "NewModelServer", func() (any, any) {
+		m := bookingpb.NewModel()
 		r := bookingpb.NewApiRouter()
-		r.Add(devName, bookingpb.WrapApi(bookingpb.NewModelServer(bookingpb.NewModel())))
-		return bookingpb.WrapApi(r)
+		r.Add(devName, bookingpb.WrapApi(bookingpb.NewModelServer(m)))
+		return bookingpb.WrapApi(r), m
 	}},
-	{"countpb", "NewMemoryDevice", func() any {
+	{"countpb", "NewMemoryDevice", func() (any, any) {
+		m := countpb.NewMemoryDevice()
 		r := countpb.NewApiRouter()
-		r.Add(devName, countpb.WrapApi(countpb.NewMemoryDevice()))
-		return countpb.WrapApi(r)
+		r.Add(devName, countpb.WrapApi(m))
+		return countpb.WrapApi(r), m
 	}},
-	{"electricpb", "NewModelServer", func() any {
+	{"electricpb", "NewModelServer", func() (any, any) {
+		m := electricpb.NewModel()
 		r := electricpb.NewApiRouter()
-		r.Add(devName, electricpb.WrapApi(electricpb.NewModelServer(electricpb.NewModel())))
-		return electricpb.WrapApi(r)
+		r.Add(devName, electricpb.WrapApi(electricpb.NewModelServer(m)))
+		return electricpb.WrapApi(r), m
 	}},
-	{"emergencypb", "NewMemoryDevice", func() any {
+	{"emergencypb", "NewMemoryDevice", func() (any, any) {
+		m := emergencypb.NewMemoryDevice()
 		r := emergencypb.NewApiRouter()
-		r.Add(devName, emergencypb.WrapApi(emergencypb.NewMemoryDevice()))
-		return emergencypb.WrapApi(r)
+		r.Add(devName, emergencypb.WrapApi(m))
+		return emergencypb.WrapApi(r), m
 	}},
-	{"energystoragepb", "NewModelServer", func() any {
+	{"energystoragepb", "NewModelServer", func() (any, any) {
+		m := energystoragepb.NewModel()
 		r := energystoragepb.NewApiRouter()
-		r.Add(devName, energystoragepb.WrapApi(energystoragepb.NewModelServer(energystoragepb.NewModel())))
-		return energystoragepb.WrapApi(r)
+		r.Add(devName, energystoragepb.WrapApi(energystoragepb.NewModelServer(m)))
+		return energystoragepb.WrapApi(r), m
 	}},
-	{"enterleavesensorpb", "NewModelServer", func() any {
+	{"enterleavesensorpb", "NewModelServer", func() (any, any) {
+		m := enterleavesensorpb.NewModel()
 		r := enterleavesensorpb.NewApiRouter()
-		r.Add(devName, enterleavesensorpb.WrapApi(enterleavesensorpb.NewModelServer(enterleavesensorpb.NewModel())))
-		return enterleavesensorpb.WrapApi(r)
+		r.Add(devName, enterleavesensorpb.WrapApi(enterleavesensorpb.NewModelServer(m)))
+		return enterleavesensorpb.WrapApi(r), m
 	}},
-	{"fanspeedpb", "NewModelServer", func() any {
+	{"fanspeedpb", "NewModelServer", func() (any, any) {
+		m := fanspeedpb.NewModel()
 		r := fanspeedpb.NewApiRouter()
-		r.Add(devName, fanspeedpb.WrapApi(fanspeedpb.NewModelServer(fanspeedpb.NewModel())))
-		return fanspeedpb.WrapApi(r)
+		r.Add(devName, fanspeedpb.WrapApi(fanspeedpb.NewModelServer(m)))
+		return fanspeedpb.WrapApi(r), m
 	}},
-	{"hailpb", "NewModelServer", func() any {
+	{"hailpb", "NewModelServer", func() (any, any) {
+		m := hailpb.NewModel()
 		r := hailpb.NewApiRouter()
-		r.Add(devName, hailpb.WrapApi(hailpb.NewModelServer(hailpb.NewModel())))
-		return hailpb.WrapApi(r)
+		r.Add(devName, hailpb.WrapApi(hailpb.NewModelServer(m)))
+		return hailpb.WrapApi(r), m
 	}},
-	{"lightpb", "NewModelServer", func() any {
+	{"lightpb", "NewModelServer", func() (any, any) {
+		m := lightpb.NewModel()
 		r := lightpb.NewApiRouter()
-		r.Add(devName, lightpb.WrapApi(lightpb.NewModelServer(lightpb.NewModel())))
-		return lightpb.WrapApi(r)
+		r.Add(devName, lightpb.WrapApi(lightpb.NewModelServer(m)))
+		return lightpb.WrapApi(r), m
 	}},
-	{"lightpb", "NewMemoryDevice", func() any {
+	{"lightpb", "NewMemoryDevice", func() (any, any) {
+		m := lightpb.NewMemoryDevice()
 		r := lightpb.NewApiRouter()
-		r.Add(devName, lightpb.WrapApi(lightpb.NewMemoryDevice()))
-		return lightpb.WrapApi(r)
+		r.Add(devName, lightpb.WrapApi(m))
+		return lightpb.WrapApi(r), m
 	}},
-	{"metadatapb", "NewModelServer", func() any {
+	{"metadatapb", "NewModelServer", func() (any, any) {
+		m := metadatapb.NewModel()
 		r := metadatapb.NewApiRouter()
-		r.Add(devName, metadatapb.WrapApi(metadatapb.NewModelServer(metadatapb.NewModel())))
-		return metadatapb.WrapApi(r)
+		r.Add(devName, metadatapb.WrapApi(metadatapb.NewModelServer(m)))
+		return metadatapb.WrapApi(r), m
 	}},
-	{"metadatapb", "NewCollectionServer", func() any {
+	{"metadatapb", "NewCollectionServer", func() (any, any) {
+		m := metadatapb.NewCollection()
 		r := metadatapb.NewApiRouter()
-		r.Add(devName, metadatapb.WrapApi(metadatapb.NewCollectionServer(metadatapb.NewCollection())))
-		return metadatapb.WrapApi(r)
+		r.Add(devName, metadatapb.WrapApi(metadatapb.NewCollectionServer(m)))
+		return metadatapb.WrapApi(r), m
 	}},
-	{"meterpb", "NewModelServer", func() any {
+	{"meterpb", "NewModelServer", func() (any, any) {
+		m := meterpb.NewModel()
 		r := meterpb.NewApiRouter()
-		r.Add(devName, meterpb.WrapApi(meterpb.NewModelServer(meterpb.NewModel())))
-		return meterpb.WrapApi(r)
+		r.Add(devName, meterpb.WrapApi(meterpb.NewModelServer(m)))
+		return meterpb.WrapApi(r), m
 	}},
-	{"modepb", "NewModelServer", func() any {
+	{"modepb", "NewModelServer", func() (any, any) {
+		m := modepb.NewModel()
 		r := modepb.NewApiRouter()
-		r.Add(devName, modepb.WrapApi(modepb.NewModelServer(modepb.NewModel())))
-		return modepb.WrapApi(r)
+		r.Add(devName, modepb.WrapApi(modepb.NewModelServer(m)))
+		return modepb.WrapApi(r), m
 	}},
-	{"occupancysensorpb", "NewModelServer", func() any {
+	{"occupancysensorpb", "NewModelServer", func() (any, any) {
+		m := occupancysensorpb.NewModel()
 		r := occupancysensorpb.NewApiRouter()
-		r.Add(devName, occupancysensorpb.WrapApi(occupancysensorpb.NewModelServer(occupancysensorpb.NewModel())))
-		return occupancysensorpb.WrapApi(r)
+		r.Add(devName, occupancysensorpb.WrapApi(occupancysensorpb.NewModelServer(m)))
+		return occupancysensorpb.WrapApi(r), m
 	}},
-	{"onoffpb", "NewModelServer", func() any {
+	{"onoffpb", "NewModelServer", func() (any, any) {
+		m := onoffpb.NewModel()
 		r := onoffpb.NewApiRouter()
-		r.Add(devName, onoffpb.WrapApi(onoffpb.NewModelServer(onoffpb.NewModel())))
-		return onoffpb.WrapApi(r)
+		r.Add(devName, onoffpb.WrapApi(onoffpb.NewModelServer(m)))
+		return onoffpb.WrapApi(r), m
 	}},
-	{"openclosepb", "NewModelServer", func() any {
+	{"openclosepb", "NewModelServer", func() (any, any) {
+		m := openclosepb.NewModel()
 		r := openclosepb.NewApiRouter()
-		r.Add(devName, openclosepb.WrapApi(openclosepb.NewModelServer(openclosepb.NewModel())))
-		return openclosepb.WrapApi(r)
+		r.Add(devName, openclosepb.WrapApi(openclosepb.NewModelServer(m)))
+		return openclosepb.WrapApi(r), m
 	}},
-	{"parentpb", "NewModelServer", func() any {
+	{"parentpb", "NewModelServer", func() (any, any) {
+		m := parentpb.NewModel()
 		r := parentpb.NewApiRouter()
-		r.Add(devName, parentpb.WrapApi(parentpb.NewModelServer(parentpb.NewModel())))
-		return parentpb.WrapApi(r)
+		r.Add(devName, parentpb.WrapApi(parentpb.NewModelServer(m)))
+		return parentpb.WrapApi(r), m
 	}},
-	{"presspb", "NewModelServer", func() any {
+	{"presspb", "NewModelServer", func() (any, any) {
+		m := presspb.NewModel(traits.PressedState_UNPRESSED)
 		r := presspb.NewApiRouter()
-		r.Add(devName, presspb.WrapApi(presspb.NewModelServer(presspb.NewModel(traits.PressedState_UNPRESSED))))
-		return presspb.WrapApi(r)
+		r.Add(devName, presspb.WrapApi(presspb.NewModelServer(m)))
+		return presspb.WrapApi(r), m
 	}},
-	{"publicationpb", "NewModelServer", func() any {
+	{"publicationpb", "NewModelServer", func() (any, any) {
+		m := publicationpb.NewModel()
 		r := publicationpb.NewApiRouter()
-		r.Add(devName, publicationpb.WrapApi(publicationpb.NewModelServer(publicationpb.NewModel())))
-		return publicationpb.WrapApi(r)
+		r.Add(devName, publicationpb.WrapApi(publicationpb.NewModelServer(m)))
+		return publicationpb.WrapApi(r), m
 	}},
-	{"speakerpb", "NewMemoryDevice", func() any {
+	{"speakerpb", "NewMemoryDevice", func() (any, any) {
+		m := speakerpb.NewMemoryDevice(&types.AudioLevel{Gain: 10})
 		r := speakerpb.NewApiRouter()
-		r.Add(devName, speakerpb.WrapApi(speakerpb.NewMemoryDevice(&types.AudioLevel{Gain: 10})))
-		return speakerpb.WrapApi(r)
+		r.Add(devName, speakerpb.WrapApi(m))
+		return speakerpb.WrapApi(r), m
 	}},
-	{"vendingpb", "NewModelServer", func() any {
+	{"vendingpb", "NewModelServer", func() (any, any) {
+		m := vendingpb.NewModel()
 		r := vendingpb.NewApiRouter()
-		r.Add(devName, vendingpb.WrapApi(vendingpb.NewModelServer(vendingpb.NewModel())))
-		return vendingpb.WrapApi(r)
+		r.Add(devName, vendingpb.WrapApi(vendingpb.NewModelServer(m)))
+		return vendingpb.WrapApi(r), m
 	}},
-	{"wastepb", "NewModelServer", func() any {
+	{"wastepb", "NewModelServer", func() (any, any) {
+		m := wastepb.NewModel()
 		r := wastepb.NewApiRouter()
-		r.Add(devName, wastepb.WrapApi(wastepb.NewModelServer(wastepb.NewModel())))
-		return wastepb.WrapApi(r)
+		r.Add(devName, wastepb.WrapApi(wastepb.NewModelServer(m)))
+		return wastepb.WrapApi(r), m
 	}},
 }
